@@ -144,6 +144,7 @@ void libvm_execute_build_in(vm * machine, bytecode * code)
         r = r;
         addr = gc_alloc_int(machine->collector, x);
         machine->sp++;
+        vm_check_stack(machine);
     }
     break;
     case LIB_MATH_PRINT:
